@@ -31,6 +31,14 @@ def load_mutants():
             m = meta_all.get(name, {})
             out.append({"name": name, "patch": os.path.join(mdir, f), "properties": m.get("properties", []),
                         "what": m.get("what", ""), "origin": "revert-of-fix"})
+    bdir = os.path.join(VERIF, "benign")
+    for d in sorted(os.listdir(bdir)) if os.path.isdir(bdir) else []:
+        p = os.path.join(bdir, d, "patch.diff")
+        mj = os.path.join(bdir, d, "meta.json")
+        if os.path.exists(p) and os.path.exists(mj):
+            m = json.load(open(mj))
+            out.append({"name": d, "patch": p, "properties": m.get("checks") or [m["property"]],
+                        "what": m.get("what", ""), "origin": "benign", "benign": True})
     sdir = os.path.join(VERIF, "seeded")
     for d in sorted(os.listdir(sdir)) if os.path.isdir(sdir) else []:
         p = os.path.join(sdir, d, "patch.diff")
@@ -69,8 +77,10 @@ def run_one(slot, mut, verify, tier):
         c = subprocess.run([os.path.join(VERIF, "check"), prop, tier], env=env, stdout=subprocess.PIPE, stderr=subprocess.PIPE, text=True)
         viol = [l for l in c.stdout.splitlines() if l.startswith("VIOLATION property=%s" % prop)]
         sigs = [l.strip()[len("signature: "):] for l in c.stderr.splitlines() if l.strip().startswith("signature: ")]
-        res["results"][prop] = {"exit": c.returncode, "violation_lines": len(viol), "signatures": sigs[:6],
-                                "detected": c.returncode == 1 and len(viol) > 0, "wall_s": round(time.time() - t0, 1),
+        anyv = [l for l in c.stdout.splitlines() if l.startswith("VIOLATION")]
+        ok = (c.returncode == 0 and not anyv) if mut.get("benign") else (c.returncode == 1 and len(viol) > 0)
+        res["results"][prop] = {"exit": c.returncode, "violation_lines": len(anyv if mut.get("benign") else viol), "signatures": sigs[:6],
+                                "detected": ok, "benign": bool(mut.get("benign")), "wall_s": round(time.time() - t0, 1),
                                 "other": [l for l in c.stdout.splitlines() if l.startswith("INCONCLUSIVE")][:2]}
     return res
 
@@ -122,7 +132,10 @@ def selftest(argv):
             results.append(res)
             line = []
             for p, r in res.get("results", {}).items():
-                line.append("%s:%s(%ss)" % (p, "DETECTED" if r["detected"] else "MISSED exit=%s %s" % (r["exit"], r["other"]), r["wall_s"]))
+                if r.get("benign"):
+                    line.append("%s:%s(%ss)" % (p, "SILENT" if r["detected"] else "FALSE-ALARM exit=%s %s %s" % (r["exit"], r["signatures"][:2], r["other"]), r["wall_s"]))
+                else:
+                    line.append("%s:%s(%ss)" % (p, "DETECTED" if r["detected"] else "MISSED exit=%s %s" % (r["exit"], r["other"]), r["wall_s"]))
             extra = ""
             if "error" in res:
                 extra = " ERROR " + res["error"]
